@@ -287,8 +287,9 @@ def _explore(prop, a, t_start):
                         if agg['seeds'].get(i) != d:
                             # harness or library?  Two executions of that index, each in a fresh fork of this
                             # (never-called-the-library) process, must agree if the harness is deterministic
-                            c1 = ex.submit(_cold_digest, (prop.ID, a.seed, a.tier, i)).result(timeout=700)
-                            c2 = ex.submit(_cold_digest, (prop.ID, a.seed, a.tier, i)).result(timeout=700)
+                            # (forked from this driver process, which has never called the library)
+                            c1 = _cold_digest((prop.ID, a.seed, a.tier, i))
+                            c2 = _cold_digest((prop.ID, a.seed, a.tier, i))
                             if c1 is not None and c1 == c2:
                                 agg['history_dependent'] = agg.get('history_dependent', 0) + 1
                                 print('NOTE run index %d gives %s / %s in two warm workers but %s in every cold process: '
